@@ -42,7 +42,7 @@ CHECKS = {
          "Free-running N readers x M writers (commit/rollback/close/failing commit) plus a concurrent File.Close and open-time max-size updates, always under the race detector with an Observer; monitors: at most one active writer (hook events), lock state idle when no transaction is open, deadlock declared only from state facts (no progress, all workers parked on go-txfile locks), any race report is a violation. Every 4th case is a strict cooperative scheduler run: actor sets {readers, writers, closer} stepped one at a time at API boundaries and lock-adjacent hook points, would-block predicates evaluated on the hooked lock state, all schedules with a bounded number of preemptions enumerated depth-first (deadlock = no enabled actor).",
          "DESIGN.md 4 (C09)", SIM + "; Go race detector"),
  "C18": ("exploration", "runtime monitoring on the real OS file system: independent flock probes + logical-clock ordering of waiting opens + strace syscall fault injection (thorough)",
-         "Generated open/second-open/waiting-open/failing-open/close sequences on real temp files; an independent flock probe decides whether the path lock is held or free after every step; failing opens cover invalid options, damaged/truncated files, out-of-range meta roots and size errors; the thorough tier adds helper processes with pwrite/fsync/mmap/ftruncate/fstat/flock/openat failures injected by strace during initialisation.",
+         "Generated open/second-open/waiting-open/failing-open/close sequences on real temp files; an independent flock probe decides whether the path lock is held or free after every step; failing opens cover invalid options, damaged/truncated files, out-of-range meta roots and size errors; the thorough tier adds helper processes with pwrite/fsync/mmap/ftruncate/fstat/openat failures injected by strace during initialisation.",
          "DESIGN.md 4 (C18)", "trusted: advisory flock semantics of the sandbox file system; strace injection may hit the Go runtime (then inconclusive)"),
  "C05": ("exploration", "runtime monitoring: model-based differential execution of the queue through its public Writer/Reader/ACK API with unique event contents (+race detector slice)",
          "Generated programs (boundary-size table, streamed writes, partial reads, flush timings, ACKs, reopen; page and buffer sizes) run against a sequential event-list model; every Next size and Read byte range is compared, end-of-queue must lie in the flushed bracket, final close/reopen/drain delivers every completed event.",
